@@ -120,6 +120,7 @@ def import_readers():
     U.env()
     import shexer.io.graph.yielder.nt_triples_yielder       # noqa: F401
     import shexer.io.graph.yielder.big_ttl_triples_yielder  # noqa: F401
+    import shexer.utils.factories.triple_yielders_factory   # noqa: F401
 
 
 _UNESC = re.compile(r'\\(u[0-9A-Fa-f]{4}|U[0-9A-Fa-f]{8}|.)', re.S)
@@ -154,6 +155,7 @@ SUFFIXES = [("plain", None), ("lang", "en"), ("lang", "en-GB"), ("dt", XSD_ANYUR
 IRIS = ["http://ex.org/s", "http://ex.org/ns#frag", "http://user@ex.org/at", "http://ex.org/under_score",
         "http://ex.org:8080/a:b", "urn:x-dt:foo", "http://ex.org/geo:point"]
 BNODES = ["b1", "b_2", "n3-x"]
+DOTTED_BNODES = ["genid.1", "b-2", "a.b.c", "x.1.y-2"]     # '.', '-' and digits inside a label (never a final '.')
 S_DEFAULT = ("I", "http://ex.org/s")
 P_DEFAULT = "http://ex.org/p"
 
@@ -272,6 +274,8 @@ def nt_features(case):
         f.add("dot-glued-to-object")
     if o[0] == "B" and sep3[:1] == "\t":
         f.add("tab-after-object")
+    if (s[0] == "B" and s[1] in DOTTED_BNODES) or (o[0] == "B" and o[1] in DOTTED_BNODES):
+        f.add("bnode-label-with-dot")
     if o[0] == "L":
         lex, kind = o[1], o[2]
         f.add(kind)
@@ -422,6 +426,13 @@ def nt_attribute(case, outcome, read):
         return devs
     s, p, o, sep1, sep2, sep3, comment = case
     f = nt_features(case)
+    if "bnode-label-with-dot" in f:
+        # counterfactual for the label: the same line with plain labels (letters in place of '.', '-' and digits)
+        def plain_label(n):
+            return (n[0], re.sub(r"[^A-Za-z]", "x", n[1])) + tuple(n[2:]) if n[0] == "B" and n[1] in DOTTED_BNODES else n
+        twin = (plain_label(s), p, plain_label(o), sep1, sep2, sep3, comment)
+        same = dict((d[1], d[0]) for d in nt_attribute(twin, read(twin), read))
+        return [(same.get(sym, "bnode-label-with-dot"), sym, text) for (cat, sym, text) in devs]
     if "line-separator-in-lex" in f:
         # counterfactual for the characters themselves: the same line with a harmless letter in their place
         twin = (s, p, (o[0], without_line_separators(o[1])) + tuple(o[2:]), sep1, sep2, sep3, comment)
@@ -501,6 +512,21 @@ def nt_node_cases():
                     yield (s, P_DEFAULT, o, " ", " ", sep3, com)
 
 
+def nt_bnode_label_cases():
+    """Blank-node labels with '.', '-' and digits inside, as subject, as object and as both (two labels that differ
+    after the dot only), under the full product of separators, blank / nothing / tab before the dot, comments."""
+    for lab in DOTTED_BNODES:
+        other = lab[:-1] + ("2" if lab[-1] != "2" else "3")
+        roles = [(("B", lab), ("I", IRIS[1])), (("B", lab), ("L", "x", "plain", None)), (S_DEFAULT, ("B", lab)),
+                 (("B", lab), ("B", other)), (("B", "b1"), ("B", lab))]
+        for (s, o) in roles:
+            for sep1 in SEPS:
+                for sep2 in SEPS:
+                    for sep3 in PRE_DOT:
+                        for com in COMMENTS:
+                            yield (s, P_DEFAULT, o, sep1, sep2, sep3, com)
+
+
 def nt_line_separator_cases():
     """Each character of LINE_SEPARATORS at the start / in the middle / at the end of a plain, a language-tagged and
     a typed literal under every layout, and next to every symbol of the alphabet (default layout)."""
@@ -564,6 +590,124 @@ def nt_doc_oracle_check(items, counterfactual=True):
     elif errors:
         out.append((cat, "error-count", "error_triples=%d" % errors))
     return out, doc
+
+
+# ------------------------------------------------------------------------------------------------
+# C06: several files through list_of_source_files (MultiNtTriplesYielder / MultiZipTriplesYielder)
+# ------------------------------------------------------------------------------------------------
+MALFORMED_LINES = ["<http://ex.org/s> <http://ex.org/p> .", "this is not a statement", "<http://ex.org/s> .",
+                   "<http://ex.org/a> <http://ex.org/b> <http://ex.org/c> <http://ex.org/d> ."]
+FILE_SHAPES = ["G", "GG", "GBG", "BGB", "B", "GGB"]        # G = a good statement, B = a malformed line (to be counted)
+
+
+def multifile_cases():
+    """2 and 3 files of every combination of FILE_SHAPES (plain files), the 2-file combinations again as members
+    of one ZIP archive and as two ZIP archives of one or two members."""
+    import itertools as it
+    for n in (2, 3):
+        for shapes in it.product(FILE_SHAPES, repeat=n):
+            yield {"files": list(shapes), "container": "plain"}
+    for shapes in it.product(FILE_SHAPES, repeat=2):
+        yield {"files": list(shapes), "container": "one-zip"}
+        yield {"files": list(shapes) + [shapes[0]], "container": "two-zips"}
+
+
+def multifile_content(case):
+    """-> (file texts, expected rows in order, expected error_triples seen while each row is yielded, total errors).
+    Good statements are plain ones (IRIs, a blank node, plain / typed / tagged literals without any special character)."""
+    texts, rows, errs_at, n, bad = [], [], [], 0, 0
+    for fi, shape in enumerate(case["files"]):
+        lines = []
+        for ch in shape:
+            if ch == "G":
+                n += 1
+                o = [("I", "http://ex.org/o%d" % n), ("L", "v%d" % n, "plain", None), ("L", "w%d" % n, "dt", DT_FOO),
+                     ("B", "n%d" % n), ("L", "t%d" % n, "lang", "en")][n % 5]
+                c = (("I", "http://ex.org/f%d/s%d" % (fi, n)), P_DEFAULT, o) + DEFAULT_LAYOUT
+                lines.append(nt_line(c))
+                rows.append(nt_expected(c))
+                errs_at.append(bad)
+            else:
+                lines.append(MALFORMED_LINES[bad % len(MALFORMED_LINES)])
+                bad += 1
+        texts.append("\n".join(lines) + "\n")
+    return texts, rows, errs_at, bad
+
+
+def read_multifile(case, wall=WALL_SECONDS):
+    """Writes the files of the case into a fresh temporary directory and reads them through sheXer's own factory
+    (get_triple_yielder(list_of_source_files=..., input_format='nt'[, compression_mode='zip'])), observing
+    error_triples while every triple is yielded and at the end."""
+    import os
+    import shutil
+    import tempfile
+    import zipfile
+    U.env()
+    import shexer.utils.factories.triple_yielders_factory as F
+    texts = multifile_content(case)[0]
+    d = tempfile.mkdtemp(prefix="verif_readers_")
+    try:
+        paths = []
+        for i, t in enumerate(texts):
+            pth = os.path.join(d, "f%d.nt" % i)
+            with open(pth, "w", encoding="utf-8") as fh:
+                fh.write(t)
+            paths.append(pth)
+        kw = {"list_of_source_files": paths, "input_format": "nt"}
+        if case["container"] != "plain":
+            groups = [paths] if case["container"] == "one-zip" else [paths[:1], paths[1:]]
+            zips = []
+            for zi, members in enumerate(groups):
+                zp = os.path.join(d, "z%d.zip" % zi)
+                with zipfile.ZipFile(zp, "w") as z:
+                    for m in members:
+                        z.write(m, arcname=os.path.basename(m))
+                zips.append(zp)
+            kw = {"list_of_source_files": zips, "input_format": "nt", "compression_mode": "zip"}
+
+        def go():
+            y = F.get_triple_yielder(**kw)
+            out = []
+            for (s, p, o) in y.yield_triples():
+                vs, vo = _view(s), _view(o)
+                out.append(([vs[0], vs[1], str(p), vo[0], vo[1], vo[2] if vo[0] == "Literal" else None], y.error_triples))
+            return out, y.error_triples, y.yielded_triples, type(y).__name__
+        return guarded(go, cpu=None, wall=wall)
+    finally:
+        shutil.rmtree(d, ignore_errors=True)
+
+
+def multifile_classify(case, outcome):
+    """-> [("multi-file", symptom class, description)]; symptom classes hang | raise:<T> | order | content | error-count."""
+    texts, rows, errs_at, bad = multifile_content(case)
+    if outcome[0] in ("hang", "raise") and bad > 0:
+        return []
+    if outcome[0] == "hang":
+        return [("multi-file", "hang", "hang")]
+    if outcome[0] == "raise":
+        return [("multi-file", "raise:" + outcome[1], "raise %s in %s: %s" % (outcome[1], outcome[2], outcome[3][:80]))]
+    seen, errors, yielded, cls = outcome[1]
+    if bad > 0:
+        return []       # C06 speaks about VALID documents ("counts zero error lines"): files with malformed lines are outside its domain
+    # several archives go through MultiZipTriplesYielder, whose totals are a matter of their own
+    cat = "multi-zip" if case["container"] == "two-zips" else "multi-file"
+    got = [r for (r, e) in seen]
+    if got != rows:
+        if sorted(map(repr, got)) == sorted(map(repr, rows)):
+            return [(cat, "order", "%s yields the triples of the files in another order" % cls)]
+        return [(cat, "content", "%s: %d triples yielded, %d expected; first difference %r"
+                 % (cls, len(got), len(rows), next(((g, e) for g, e in zip(got, rows) if g != e), None)))]
+    out = []
+    during = [e for (r, e) in seen]
+    if during != errs_at:
+        i = [a != b for a, b in zip(during, errs_at)].index(True)
+        out.append((cat, "error-count", "%s.error_triples is %d while triple %d is yielded (%d malformed lines so far)"
+                    % (cls, during[i], i + 1, errs_at[i])))
+    elif errors != bad:
+        out.append((cat, "error-count", "%s.error_triples is %d at the end, %d malformed lines in the files" % (cls, errors, bad)))
+    # the yielded_triples counter is not part of the statement (MultiZipTriplesYielder counts its last archive twice there: noted in DESIGN.md,
+    # not a C06 finding)
+    return out
 
 
 def nt_random_case(rng, lo=4, hi=8):
@@ -1130,7 +1274,16 @@ def _redecl_expand(term, prefixes, base):
         iri = term[1:-1]
         return ["IRI", iri if ":" in iri else base + iri]
     if term.startswith('"'):
-        return ["Literal", term[1:-1], XSD_STRING]
+        q = term.rfind('"')
+        lex, tail = term[1:q], term[q + 1:]
+        if tail.startswith("@"):
+            return ["Literal", lex, RDF_LANGSTRING]
+        if tail.startswith("^^<"):
+            iri = tail[3:-1]
+            return ["Literal", lex, iri if ":" in iri else base + iri]
+        if tail.startswith("^^xsd:"):
+            return ["Literal", lex, XSD + tail[6:]]
+        return ["Literal", lex, XSD_STRING]
     if term.startswith("_:"):
         return ["BNode", term]
     label, local = term.split(":", 1)
@@ -1200,6 +1353,13 @@ def redecl_expected(case):
     return rows
 
 
+_REL_DT = re.compile(r'"\^\^<[^:>]*>')
+
+
+def has_relative_datatype(case):
+    return any(_REL_DT.search(o) for _, sts in case["parts"] for st in sts for (_, objs) in st[1] for o in objs)
+
+
 def redecl_category(case):
     seen, cats = {}, set()
     for directives, _ in case["parts"]:
@@ -1232,6 +1392,8 @@ def redecl_classify(case, outcome, exp_rows):
         if d:
             field, gv, ev = d[0]
             cls = {"content": "wrong-content", "datatype": "wrong-datatype"}.get(field, "wrong-node")
+            if field == "datatype" and has_relative_datatype(case):
+                cat = "relative-datatype-under-base"
             return [(cat, cls, "triple %d: %s %r instead of %r (the declaration in force at that point is not applied)" % (i + 1, field, gv, ev))]
     return [(cat, "wrong-node", "rows differ")]
 
@@ -1268,6 +1430,38 @@ def ttl_redeclaration_cases():
         [[[pfx("ex", A), "@base <%s> ." % B1], rel], [["@base <%s> ." % B2, pfx("ex", B)], rel]],
         [[[pfx("ex", A), "@base <%s> ." % B1], rel], [["@base <%s> ." % B1], rel]],
     ]
-    for parts in docs:
+    for parts in docs + relative_datatype_documents()[0]:
         for layout in REDECL_LAYOUTS:
             yield {"parts": parts, "layout": layout, "family": "redeclaration"}
+
+
+def relative_datatype_documents():
+    """-> (documents with a relative datatype IRI under two @base declarations, sequences of single-base documents
+    to be read one after the other in ONE process: base 1, base 2, base 1 again -- whatever an earlier document left
+    behind in the process, one of them meets a stale expansion)."""
+    A = "http://a.example/"
+    B1, B2 = "http://b1.example/x/", "http://b2.example/y/"
+    lits = [["ex:s1", [["ex:p", ['"20"^^<celsius>', '"x"', '"hi"@en', '"1"^^xsd:int', '"w"^^<http://ex.org/dt/foo>']]]]]
+    one = [["ex:s1", [["ex:p", ['"20"^^<celsius>']]]]]
+    head = "@prefix ex: <%s> ." % A
+    xsd = "@prefix xsd: <%s> ." % XSD
+
+    def base(b):
+        return "@base <%s> ." % b
+    two_bases = [
+        [[[head, base(B1)], one], [[base(B2)], one]],
+        [[[head, xsd, base(B1)], lits], [[base(B2)], lits]],
+        [[[head, xsd, base(B1)], lits], [[base(B2)], lits], [[base(B1)], one]],
+        [[[head, base(B1)], [["<r1>", [["<rp>", ['"20"^^<celsius>', "<r2>"]]]]]], [[base(B2)], [["<r1>", [["<rp>", ['"20"^^<celsius>']]]]]]],
+    ]
+    sequences = []
+    for sts in (one, lits):
+        sequences.append([[[[head, xsd, base(b)], sts]] for b in (B1, B2, B1)])
+    return two_bases, sequences
+
+
+def ttl_sequence_cases():
+    """[{"docs": [case, case, case], "layout": ...}]: documents read one after the other by one process."""
+    for seq in relative_datatype_documents()[1]:
+        for layout in REDECL_LAYOUTS:
+            yield {"docs": [{"parts": parts, "layout": layout} for parts in seq], "family": "sequence"}
